@@ -14,6 +14,10 @@ fn usage() -> ! {
 
 fn self_tests() {
     oracle::dur::self_test();
+    oracle::ulp::self_test();
+    oracle::civil::self_test();
+    oracle::leap::self_test();
+    oracle::scales::self_test();
 }
 
 fn main() {
